@@ -130,6 +130,19 @@ func (r *Registry) PushManifest(ctx context.Context, repoName string, tag string
 		}
 	}
 	// make a copy of the data to avoid potential corruption.
+	if r.cfg.ImmutableTags {
+		if b := repo.manifests[dig]; b != nil && b.mediaType != mediaType {
+			// The media type of a manifest determines what it refers to,
+			// so it must not change while the manifest is reachable from a tag.
+			ok, err := refersTo(repo, repoTagIter(repo), dig)
+			if err != nil {
+				return ociregistry.Descriptor{}, err
+			}
+			if ok {
+				return ociregistry.Descriptor{}, fmt.Errorf("%w: cannot change media type of tagged manifest", ociregistry.ErrDenied)
+			}
+		}
+	}
 	data = append([]byte(nil), data...)
 	if err := CheckDescriptor(desc, data); err != nil {
 		return ociregistry.Descriptor{}, fmt.Errorf("invalid descriptor: %v", err)
